@@ -606,7 +606,9 @@ class Interp:
         seeded = self.__dict__.get("seeded_globals") or {}
         if name in seeded:
             return Ptr("g:" + name, 0, seeded[name])     # a mutable global whose state the caller supplied in heap0
-        if g is None or not g.get("const"):
+        if g is None:
+            return None
+        if not g.get("const") and not self._never_written_global(name):
             return None
         base = "g:" + name
         size = self.sizeof(g["t"])
@@ -630,6 +632,42 @@ class Interp:
         m = re.match(r"^(.*?)\[(\d+)\](.*)$", t)
         esz = self.sizeof((m.group(1) + m.group(3)).strip()) if m else size
         return Ptr(base, 0, esz or 1)
+
+    def _never_written_global(self, name):
+        """A file-scope object without `const` that no function of the program stores to, takes the address of as a whole
+        or hands to a callee through a non-const pointer is a constant table in everything but its spelling (a static
+        table of function pointers, say). Only static (file-local) arrays with an initialiser qualify."""
+        memo = self.P.__dict__.setdefault("_memo", {}).setdefault("_effectively_const", {})
+        if name in memo:
+            return memo[name]
+        memo[name] = False
+        gs = [g_ for u, g_ in self.P.globals if g_["name"] == name]
+        if len(gs) != 1 or gs[0].get("init") is None or "[" not in (gs[0].get("t") or "") or not gs[0].get("static", True):
+            return False
+        for f in self.P.functions.values():
+            if f.body is None:
+                continue
+            for n in f.body.walk():
+                if n.k != "DeclRefExpr" or n.get("dk") != "global" or n.name != name:
+                    continue
+                # walk up: a use is harmless when it is an rvalue element read `name[i]` (or a call through it)
+                p_ = n.parent
+                while p_ is not None and p_.k in ("ParenExpr", "ImplicitCastExpr"):
+                    p_ = p_.parent
+                if p_ is None or p_.k != "ArraySubscriptExpr":
+                    return False
+                q = p_.parent
+                while q is not None and q.k in ("ParenExpr",):
+                    q = q.parent
+                if q is None:
+                    return False
+                if q.k == "ImplicitCastExpr" and q.get("ck") in ("LValueToRValue", "FunctionToPointerDecay"):
+                    continue
+                if q.k == "CallExpr" and q.c and any(y is p_ for y in q.c[0].walk()):
+                    continue
+                return False
+        memo[name] = True
+        return True
 
     def _fill(self, base, off, t, node, fn, env=None, depth=0):
         t = clean_type(t or "").strip()
@@ -1267,6 +1305,16 @@ class Interp:
                     bs = [self.heap.get((args[1].base, args[1].off + i)) for i in range(n)]
                     if all(isinstance(b, int) for b in bs):
                         val = wrap(sum((b & 0xFF) << (8 * i) for i, b in enumerate(bs)), args[0][2])
+                    else:
+                        # opaque bytes (the oracle names them one by one): the scalar is their little-endian composition
+                        bs = [self.byte_at(args[1].base, args[1].off + i) for i in range(n)]
+                        if all(isinstance(b, int) or (isinstance(b, Sym) and b.bits == 8) for b in bs) and any(isinstance(b, Sym) for b in bs):
+                            t_ = None
+                            for i, b in enumerate(bs):
+                                bt = b.t if isinstance(b, Sym) else (b & 0xFF)
+                                part = bt if i == 0 else ("<<", bt, 8 * i, 8 * n)
+                                t_ = part if t_ is None else ("|", t_, part, 8 * n)
+                            val = Sym(t_, 8 * n)
                 tgt_env[args[0][1]] = val
             elif isinstance(args[1], tuple) and args[1] and args[1][0] == "ADDR" and self.heap is not None \
                     and isinstance(args[0], Ptr) and isinstance(args[0].off, int) and isinstance(n, int) and 0 < n <= 8:
